@@ -95,9 +95,11 @@ CHECKS.update({
         'multiset only => edges, counts, semivariances unchanged; shift of values leaves differences unchanged; scaling '
         'values by k scales the three estimators by k^2; scaling coordinates by s>0 scales even/uniform edges by s and keeps '
         'every pair in its class; rational rigid motions preserve squared distances. Tie: C01 pipeline theorem + metamorphic '
-        'runs on the implementation.',
+        'runs on the implementation: every relation on freshly built instances, the value relations also on a computed '
+        'instance whose observations are replaced in place (values setter / set_values).',
    note='Cressie-Hawkins is proved over the reals on the generated definition (C10_cressie); clustering / rule-based binnings under inexact transforms are '
-        'validated only. Transformed distances within 1e-9 of an edge are excluded as the property allows.',
+        'validated only. For inexact transforms a case is excluded when two different pairs, or a near miss, sit within 1e-9 of an edge, or any '
+        'pair within 1e-9 of a caller-given maximum lag (a single pair exactly on the edge it defines moves with it).',
    technique='Lean 4 proof (List.Perm, bijection on index pairs, homogeneity) + metamorphic correspondence', design='6 C10'),
  'C11': dict(
    text='Theorems: if the stored records are any enumeration of the records within the truncation distance M then counts and '
@@ -188,7 +190,7 @@ CHECKS.update({
    text='Theorems: generated sum / product / product-sum formulas are the documented combinations; every sample pairs '
         'table entry k = i*nt+j with the lags of its own cell; NaN cells are dropped; counter-example for the time-major '
         'pairing (D2); the source flattens the transposed grids. Tie: translator + recording of curve_fit inputs vs the '
-        'model; fitted_model vs formula; optimality by restart (validated).',
+        'model; fitted_model vs formula at interior lag pairs, on both axes (h, 0), (0, t) and at the origin; optimality by restart (validated).',
    note='curve_fit optimality is validated, not proved.',
    technique='Lean 4 proof (ring identities, index lemmas) + translator + recorded-input correspondence', design='6 C15'),
  'C18': dict(
